@@ -23,8 +23,8 @@ def plans(tier):
 
 def run(tier):
     res = transcheck.campaign("C10", plans(tier), "try_recv / try_recv_timeout / recv sequences")
-    res["assumptions"] = ["timed receives: a poll that the model ends by readiness is given 2 s and must return early "
-                          "(<1.5 s); one that the model lets expire is given 0, 0.3, 1, 2, 3 or 20 ms and must not report "
+    res["assumptions"] = ["timed receives: a poll that the model ends by readiness is given 8 s and must return early "
+                          "(<6 s); one that the model lets expire is given 0, 0.3, 1, 2, 3 or 20 ms and must not report "
                           "'empty' before floor(d) ms (same-thread monotonic clock)",
                           "a try_recv that goes to sleep in the kernel is detected through /proc/self/task/<tid>/syscall",
                           "premise K9 (O_NONBLOCK belongs to the open file description), K13 (poll does not time out early)"]
